@@ -43,7 +43,7 @@ def const_env(fn, base=None):
     return ev
 
 
-def run(ctx):
+def _run_base(ctx):
     repo, cg = ctx.repo, ctx.cg
     ctx.rule('R07.1', 'inline-source: the conflict flag of the decision is the text-merge tool status (status != 0) and the custom diff replaces source with the rendered text', floor=2)
     ctx.rule('R07.2', 'renderers report non-zero status whenever they insert markers; zero only when returning an input unchanged; external status passed through unmodified', floor=6)
@@ -350,3 +350,30 @@ def _roots(fn, expr, defs, out, seen):
             seen.add(name)
             for v, k, s in defs[name]:
                 _roots(fn, v, defs, out, seen)
+
+
+def run(ctx):
+    """R07.5: only the tool's standard output becomes merged text."""
+    ctx.rule('R07.5', 'the external text merge takes the merged text from the tool\'s stdout only: stderr is not redirected into it', floor=1)
+    _run_base(ctx)
+    repo = ctx.repo
+    fn = repo.func('nbdime.prettyprint:external_merge_render')
+    pops = [c for c in calls_in(fn, nested=False) if last_attr(c) == 'Popen']
+    if not pops:
+        raise AnalysisError('external_merge_render: Popen call not found')
+    for c in pops:
+        kw = {k.arg: k.value for k in c.keywords}
+        err = dotted(kw['stderr']) if 'stderr' in kw and dotted(kw['stderr']) else (ast.unparse(kw['stderr']) if 'stderr' in kw else None)
+        merged = err is not None and err.split('.')[-1] == 'STDOUT'
+        # the text returned must be the first component of communicate()
+        defs = local_defs(fn)
+        rets = [r for r in walk_no_nested(fn) if isinstance(r, ast.Return) and isinstance(r.value, ast.Tuple) and r.value.elts]
+        uses_err = False
+        for r in rets:
+            first = r.value.elts[0]
+            if depends_on(fn, first, lambda n: isinstance(n, ast.Name) and n.id in ('errors', 'err', 'stderr'), defs) is not None:
+                uses_err = True
+        ok = not merged and not uses_err
+        ctx.inst('R07.5', 'nbdime.prettyprint:external_merge_render', repo.norm(c), ok,
+                 'diagnostics of git/diff3 stay out of the merged source' if ok else
+                 'whatever the tool prints on stderr (warnings, traces, "Cannot merge binary files") becomes lines of the merged cell source: text no side wrote', c)
